@@ -22,7 +22,7 @@ def run(prog: Program, rep: Report):
              "fresh container, non-empty remainder yielded, tuple input advanced in lock-step by one zip", floor=2)
     bi = prog.cls("BatcherIter", GENERIC_MOD)
     batcher_idiom(prog, rep, "C19.R1", bi)
-    f = bi.methods["__iter__"]
+    f = prog.method_view(bi, "__iter__")
     top = [s for s in f.node.body if isinstance(s, ast.If)]
     if top:
         loops = [s for s in top[0].body if isinstance(s, ast.For)]
@@ -240,7 +240,15 @@ def r4_window_scan(prog: Program, rep: Report):
         want = f"range(0, len({s2}) - len({s1}) + 1)"
         alt = f"range(len({s2}) - len({s1}) + 1)"
         iters = [n.iter for n in ast.walk(f.node) if isinstance(n, (ast.For, ast.comprehension))]
-        full = [it for it in iters if src(it) in (want, alt)]
+        from ..flow import Flow
+        wflow = Flow(f.node)
+
+        from ..util import expand_all
+
+        def expanded(e):
+            """``e`` with locals that merely name a length / a window count replaced by what they stand for"""
+            return expand_all(e, wflow, keep=(s1, s2))
+        full = [it for it in iters if src(expanded(it)) in (want, alt)]
         whiles = [n for n in ast.walk(f.node) if isinstance(n, ast.While)]
         if full and not whiles:
             cmp_ok = any(isinstance(n, ast.Compare) and len(n.ops) == 1 and isinstance(n.ops[0], ast.Eq)
@@ -281,7 +289,9 @@ def r5_multiset(prog: Program, rep: Report):
     removes = [n for n in ast.walk(f.node) if isinstance(n, ast.Call) and isinstance(n.func, ast.Attribute) and n.func.attr == "remove"]
     handler = any(isinstance(n, ast.ExceptHandler) and n.type is not None and src(n.type) == "ValueError"
                   and any(isinstance(r, ast.Return) and const_value(r.value) is False for r in ast.walk(n)) for n in ast.walk(f.node))
-    final = any(isinstance(r.value, ast.Compare) and "len(" in src(r.value) and const_value(r.value.comparators[0]) == 0
+    final = any((isinstance(r.value, ast.Compare) and "len(" in src(r.value) and const_value(r.value.comparators[0]) == 0)
+                or (isinstance(r.value, ast.UnaryOp) and isinstance(r.value.op, ast.Not) and isinstance(r.value.operand, ast.Name)
+                    and any(isinstance(c_.func.value, ast.Name) and c_.func.value.id == r.value.operand.id for c_ in removes))
                 for r in returns_of(f.node) if r.value is not None)
     counter = any(isinstance(n, ast.Call) and src(n.func).endswith("Counter") for n in ast.walk(f.node))
     other_returns = [r for r in returns_of(f.node) if r.value is not None and const_value(r.value) is not False
